@@ -180,6 +180,26 @@ def gen_c18(ctx, quick):
         n = min(6, rf + ctx.rng.randint(1, 2))
         g = ctllib.Gen(ctx.rng)
         cases.append(dict(rf=rf, world=world(n), events=g.history(rf, n, ctx.rng.randint(6, 16))))
+    # two admissions in flight at once, every commit order, with and without promotion in between
+    for rf in (2, 3, 4):
+        pre = boot(rf, 0, [])
+        a, b = 1, 2
+        for commits in ([a, b], [b, a]):
+            for verify_between in (False, True):
+                es = pre + [ev("addcheck", a=a), ev("addcheck", a=b), ev("addcommit", a=commits[0])]
+                if verify_between:
+                    es.append(ev("verify", a=commits[0]))
+                es += [ev("addcommit", a=commits[1]), ev("write", wid=1, off=0, len=4096), ev("verify", a=a), ev("verify", a=b)]
+                cases.append(dict(rf=rf, world=world(rf + 2), events=es))
+    # a replica marked failed but not yet removed: late / duplicate mode requests, then I/O
+    for rf in (2, 3):
+        full = boot(rf, 0, list(range(1, rf)))
+        for m2 in ("RW", "ERR"):
+            cases.append(dict(rf=rf, world=world(rf), events=full + [ev("setmode", a=1, mode="ERR"), ev("setmode", a=1, mode=m2),
+                                                                     ev("write", wid=1, off=0, len=4096), ev("read", off=0, len=4096), ev("read", off=0, len=4096),
+                                                                     ev("sync"), ev("snapshot", name=1), ev("monfire", a=1), ev("write", wid=2, off=0, len=4096)]))
+        cases.append(dict(rf=rf, world=world(rf), events=full + [ev("snapshot", name=1, fs=fl((1, "snap"))), ev("setmode", a=1, mode="RW"),
+                                                                 ev("write", wid=1, off=0, len=4096), ev("read", off=0, len=4096), ev("read", off=0, len=4096), ev("monfire", a=1)]))
     # interleaved admissions
     for rf in (2, 3):
         cases.append(dict(rf=rf, world=world(rf + 2), events=boot(rf, 0, list(range(1, rf - 1))) + [
@@ -272,6 +292,7 @@ def main(ctx, replay=None):
 
     quick = ctx.tier == "quick"
     cases = corpus(pid) + [dict(c) for c in ctllib.scenarios()] + GEN[pid](ctx, quick) + random_cases(ctx, 40 if quick else 1500)
+    ctllib.autosync(cases)
     res, outs = ctllib.run_cases(ctx, binpath, cases)
     bad, cov = ctllib.parse_bad(res)
     concrete = [b for b in bad if pid in b["fails"]]
@@ -303,7 +324,7 @@ def main(ctx, replay=None):
         reported.add(key)
         report_concrete(b, cases[b["case"]])
     if not concrete and (drift or not proof["ok"]):
-        extra = random_cases(ctx, 400) + GEN[pid](ctx, False)[:600]
+        extra = ctllib.autosync(random_cases(ctx, 400) + GEN[pid](ctx, False)[:600])
         r2, _ = ctllib.run_cases(ctx, binpath, extra, tag="search")
         bad2, _ = ctllib.parse_bad(r2)
         conc2 = [b for b in bad2 if pid in b["fails"]]
@@ -335,7 +356,7 @@ def main(ctx, replay=None):
             kinds[e["k"]] = kinds.get(e["k"], 0) + 1
             nfaults += len(e.get("fs", []) or [])
     bits = dict(minority_ack=F_MINORITY, refused=F_REFUSED, failover=F_FAILOVER, start_signal=F_SIGNAL,
-                checkpoint=F_CHECKPOINT, promoted=F_PROMOTED, monitor=F_MONITOR, failed_op=F_FAILED, three_replicas=F_THREE)
+                checkpoint=F_CHECKPOINT, promoted=F_PROMOTED, monitor=F_MONITOR, failed_op=F_FAILED, three_rw_replicas=F_THREE)
     extra = dict(evaluations=len(cases), distinct_nontrivial=nontriv, rule=RULE[pid],
                  traces_validated_against_impl=len(cases), events=sum(len(c["events"]) for c in cases), injected_faults=nfaults,
                  model_impl_differences=len([b for b in bad if b["field"]]), oracle_failures=len(concrete),
